@@ -56,6 +56,9 @@ class _TextCueParser:
     self.line_num: int = line_number
     self.parent: model.ContentElement = paragraph
 
+    # parents of the elements that are currently open, outermost first
+    self.open_parents: typing.List[model.ContentElement] = []
+
     # handle the special case of ruby elements where children cannot be added one by one
     self.ruby_rbc: typing.Optional[model.Rbc] = None
     self.ruby_rtc: typing.Optional[model.Rtc] = None
@@ -72,11 +75,33 @@ class _TextCueParser:
     else:
       raise ValueError("Unknown token type")
 
+  def _push_child(self, child: typing.Union[model.Span, model.Br]):
+    """Adds `child` to the element that is currently open"""
+
+    if isinstance(child, model.Br) and isinstance(self.parent, (model.Ruby, model.Rt)):
+      # ruby bases and ruby texts contain only spans
+      span = model.Span(self.parent.get_doc())
+      span.push_child(child)
+      child = span
+
+    if isinstance(self.parent, model.Ruby):
+      # <rb> is nested in <rbc>
+      rb = model.Rb(self.parent.get_doc())
+      rb.push_child(child)
+      self.ruby_rbc.push_child(rb)
+    else:
+      self.parent.push_child(child)
+
+  def _open(self, element: model.ContentElement):
+    """Makes `element` the currently open element"""
+    self.open_parents.append(self.parent)
+    self.parent = element
+
   def _handle_ts(self, token: TimestampTagToken):
 
     span = self._make_span(self.parent)
-    self.parent.push_child(span)
-    self.parent = span
+    self._push_child(span)
+    self._open(span)
 
     ts = vtt_timestamp_to_secs(token.timestamp)
     parent_begin = None
@@ -95,9 +120,7 @@ class _TextCueParser:
 
     tag = token.tag.lower()
 
-    if tag.startswith("ruby"):
-      if self.ruby_rbc is not None or self.ruby_rtc is not None:
-        raise RuntimeError("Nested ruby tags are not allowed.")
+    if tag.startswith("ruby") and isinstance(self.parent, model.P):
       span = model.Ruby(self.parent.get_doc())
 
       # wrap <rb> and <rt> into <rbc> and <rtc>
@@ -106,25 +129,29 @@ class _TextCueParser:
       self.ruby_rtc = model.Rtc(self.parent.get_doc())
       span.push_children([self.ruby_rbc, self.ruby_rtc])
       self.parent.push_child(span)
-      self.parent = span
+      self._open(span)
       return
 
-    if tag.startswith("rt"):
+    if tag.startswith("rt") and isinstance(self.parent, model.Ruby):
       span = model.Rt(self.parent.get_doc())
       self.ruby_rtc.push_child(span)
-      self.parent = span
+      self._open(span)
       return
 
-    # all other tags can be handled as a span
+    # all other tags can be handled as a span, including ruby tags that are not children of the cue
+    # and ruby text tags that are not children of a ruby tag
 
     span = self._make_span(self.parent)
-    self.parent.push_child(span)
-    self.parent = span
+    self._push_child(span)
+    self._open(span)
 
     if isinstance(span.parent(), model.P):
       span.set_style(styles.StyleProperties.BackgroundColor, _DEFAULT_BG_COLOR)
 
-    if tag.startswith("b"):
+    if tag.startswith("ruby") or tag.startswith("rt"):
+      LOGGER.warning("Misplaced %s tag at line %s", tag, self.line_num)
+
+    elif tag.startswith("b"):
       span.set_style(styles.StyleProperties.FontWeight, styles.FontWeightType.bold)
 
     elif tag.startswith("i"):
@@ -161,29 +188,25 @@ class _TextCueParser:
 
   def _handle_endtag(self, _token: EndTagToken):
 
+    if len(self.open_parents) == 0:
+      LOGGER.warning("Stray end tag at line %s", self.line_num)
+      return
+
     if isinstance(self.parent, model.Ruby):
       self.ruby_rbc = None
       self.ruby_rtc = None
-    elif isinstance(self.parent, (model.Rt, model.Rb)):
-      # this is needed since <rb> and <rt> are nested in <rbc> and <rtc>
-      self.parent = self.parent.parent()
 
-    self.parent = self.parent.parent()
+    self.parent = self.open_parents.pop()
 
   def _handle_string(self, token: StringToken):
     lines = token.value.split("\n")
 
     for i, line in enumerate(lines):
       if i > 0:
-        self.parent.push_child(model.Br(self.parent.get_doc()))
+        self._push_child(model.Br(self.parent.get_doc()))
       span = self._make_span(self.parent)
       span.push_child(model.Text(self.parent.get_doc(), line))
-      if isinstance(self.parent, model.Ruby):
-        rb = model.Rb(self.parent.get_doc())
-        rb.push_child(span)
-        self.ruby_rbc.push_child(rb)
-      else:
-        self.parent.push_child(span)
+      self._push_child(span)
 
   def _make_span(self, parent: model.ContentElement) -> model.Span:
     span = model.Span(self.parent.get_doc())
